@@ -6,6 +6,9 @@ use crate::{receiver::writer::ObjectMetadata, tools};
 use crate::{receiver::writer::ObjectWriter, tools::error::Result};
 use std::{cell::RefCell, rc::Rc, time::SystemTime};
 
+/// Maximum size of an FDT Instance (XML document, after content decoding) that the receiver accepts
+pub const MAX_FDT_SIZE: usize = 16 * 1024 * 1024;
+
 #[derive(Clone, Copy, PartialEq, Debug)]
 pub enum FDTState {
     Receiving,
@@ -280,6 +283,15 @@ impl ObjectWriter for FdtWriter {
 
     fn write(&self, _sbn: u32, data: &[u8], _now: SystemTime) -> Result<()> {
         let mut inner = self.inner.borrow_mut();
+        // An FDT Instance is a small XML document. Nothing else limits what is kept here (a
+        // content-encoded instance is inflated as long as its stream goes on, and up to 10
+        // instances stay in memory once received): refuse to grow beyond MAX_FDT_SIZE
+        if inner.data.len() + data.len() > MAX_FDT_SIZE {
+            return Err(crate::error::FluteError::new(format!(
+                "FDT Instance is larger than {} bytes",
+                MAX_FDT_SIZE
+            )));
+        }
         inner.data.extend(data);
         Ok(())
     }
